@@ -71,7 +71,7 @@ mod verif_t {
     /// Advance with that frame's stored input as Confirmed), then Save(c), Advance(new input, Confirmed); the frame
     /// counter ends at c+1; the first checksum of every saved frame of the window - also on the very first rollback -
     /// is now in the history and older entries are gone. Without rollback (c <= cd): [Save(c), Advance]; cd = 0: [Advance].
-    fn tick(cd: usize, w: usize, c: Frame) {
+    fn tick(cd: usize, w: usize, c: Frame, bad: Frame, concrete_cs: bool) {
         const R: usize = crate::input_queue::verif_q::RING;
         let mut s = SyncTestSession::<CfgRL>::new(1, w, cd, 0);
         let v: [u8; R] = kani::any();
@@ -86,7 +86,10 @@ mod verif_t {
         vs::set_last_saved(&mut s.sync_layer, c - 1);
         s.dummy_connect_status[0].last_frame = c;
         let ncell = vs::num_cells(&s.sync_layer);
-        let cs: [u32; 8] = kani::any();
+        // (steady-state instances use concrete checksum VALUES: a symbolic comparison makes the number of collected
+        //  mismatches symbolic, which the symbolic executor does not get through; the comparison on symbolic checksums
+        //  is decided by t_checksum_comparison*)
+        let cs: [u32; 8] = if concrete_cs { [1000, 1001, 1002, 1003, 1004, 1005, 1006, 1007] } else { kani::any() };
         // saves of the last w+1 frames (frame f in slot f % (w+1)), newest last
         let mut f = if c - (ncell as Frame) > 0 { c - ncell as Frame } else { 0 };
         if cd > 0 {
@@ -96,11 +99,10 @@ mod verif_t {
             }
         }
         // history left by the previous call (made at frame c-1, if that call compared at all): frames c-1-cd..=c-2
-        let bad: Frame = kani::any();
         let rollback = cd > 0 && c > cdf;
         let prev_compared = cd > 0 && c - 1 > cdf;
-        kani::assume(bad == NULL_FRAME || (prev_compared && bad >= c - cdf && bad <= c - 2));
-        let wrong: u32 = kani::any();
+        assert!(bad == NULL_FRAME || (prev_compared && bad >= c - cdf && bad <= c - 2)); // instance sanity
+        let wrong: u32 = if concrete_cs { 7 } else { kani::any() };
         if prev_compared {
             let mut h = c - 1 - cdf;
             while h <= c - 2 {
@@ -173,29 +175,33 @@ mod verif_t {
                 }
             }
         }
-        kani::cover!(r.is_ok(), "deterministic run: requests returned");
-        kani::cover!(cd < 2 || !prev_compared || r.is_err(), "glitch reported (where one can exist)");
+        kani::cover!(bad != NULL_FRAME || r.is_ok(), "deterministic run: requests returned");
+        kani::cover!(bad == NULL_FRAME || r.is_err(), "glitch reported");
         core::mem::forget(r);
         core::mem::forget(s);
     }
 
     macro_rules! tick_case {
-        ($name:ident, $cd:expr, $w:expr, $c:expr) => {
+        ($name:ident, $cd:expr, $w:expr, $c:expr, $bad:expr, $ccs:expr) => {
             /// One whole SyncTestSession::advance_frame call (see `tick`): mismatch reported iff a frame of the window was
             /// re-simulated differently, naming it; else Load/Save/Advance list with stored inputs, first checksums recorded.
-            /// (instance: check distance, window, current frame; inputs, checksums, glitch position symbolic)
+            /// (instance: check distance, window, current frame, glitching frame or -1 for a deterministic game, concrete
+            /// checksum values?; inputs symbolic)
             #[kani::proof]
             #[kani::unwind(10)]
             #[kani::stub(alloc::fmt::format, stub_format)]
             fn $name() {
-                tick($cd, $w, $c);
+                tick($cd, $w, $c, $bad, $ccs);
             }
         };
     }
-    tick_case!(t_tick_cd2_first_rollback, 2, 3, 3);
-    tick_case!(t_tick_cd2_steady, 2, 3, 9);
-    tick_case!(t_tick_cd1_steady, 1, 2, 5);
-    tick_case!(t_tick_cd3_steady, 3, 4, 9);
-    tick_case!(t_tick_cd2_before_rollbacks, 2, 3, 2);
-    tick_case!(t_tick_cd0, 0, 2, 4);
+    tick_case!(t_tick_cd2_first_rollback, 2, 3, 3, -1, false);
+    tick_case!(t_tick_cd2_steady, 2, 3, 9, -1, true);
+    tick_case!(t_tick_cd2_glitch, 2, 3, 9, 7, true);
+    tick_case!(t_tick_cd1_steady, 1, 2, 5, -1, false);
+    tick_case!(t_tick_cd3_steady, 3, 4, 9, -1, true);
+    tick_case!(t_tick_cd3_glitch_oldest, 3, 4, 9, 6, true);
+    tick_case!(t_tick_cd3_glitch_newest, 3, 4, 9, 7, true);
+    tick_case!(t_tick_cd2_before_rollbacks, 2, 3, 2, -1, false);
+    tick_case!(t_tick_cd0, 0, 2, 4, -1, false);
 }
